@@ -75,7 +75,11 @@ where
     Ctx::Key: ToPublicKey,
 {
     let te = explore::<Ctx>(n, Alphabet::Small, tap);
-    let all: Vec<T> = te.all().map(|m| walk(m).relabel_distinct()).collect();
+    let mut all: Vec<T> = te.all().map(|m| walk(m).relabel_distinct()).collect();
+    // two nested context levels around every fragment of up to three nodes (deeper rebuild stacks)
+    let small: Vec<T> = te.levels.iter().take(4).flat_map(|l| l.iter()).map(|m| walk(m).relabel_distinct()).collect();
+    let deep: std::collections::BTreeSet<T> = small.par_iter().flat_map_iter(|f| crate::sat::in_contexts2::<Ctx>(f)).collect();
+    all.extend(deep);
     let cen = all
         .par_iter()
         .fold(Census::new, |mut cen, t| {
@@ -84,6 +88,84 @@ where
                 Err(_) => return cen,
             };
             bump(&mut cen, "miniscripts");
+            // ---- the other hand-written rebuilds: Clone and substitute_raw_pkh ----
+            {
+                let cl = ms.clone();
+                if walk(&cl) != *t || cl.ty != ms.ty || cl.ext != ms.ext {
+                    rep.violation(Violation {
+                        key: format!("C20|clone|{}|{}", ctx, t.sexpr()),
+                        class: format!("clone-differs-{}", t.tag()),
+                        what: format!("clone() is {}", walk(&cl).sexpr()),
+                        case: json!({"ctx": ctx, "model": t.sexpr()}),
+                    });
+                }
+                let empty = std::collections::BTreeMap::new();
+                let same = ms.substitute_raw_pkh(&empty);
+                if walk(&same) != *t {
+                    rep.violation(Violation {
+                        key: format!("C20|substitute-empty|{}|{}", ctx, t.sexpr()),
+                        class: format!("substitute_raw_pkh-empty-map-changes-{}", t.tag()),
+                        what: format!("substitute_raw_pkh with an empty map gives {}", walk(&same).sexpr()),
+                        case: json!({"ctx": ctx, "model": t.sexpr()}),
+                    });
+                } else {
+                    bump(&mut cen, "substitute_empty_ok");
+                }
+                // pk_h(k) written as raw hashes, substituted back by the full map and by every single-key map
+                let hash_of = |k: &str| <hash160::Hash as bitcoin::hashes::Hash>::hash(format!("label-{}", k).as_bytes());
+                let pkh_keys: Vec<String> = t.nodes().iter().filter_map(|n| if let T::PkH(k) = n { Some(k.clone()) } else { None }).collect();
+                if !pkh_keys.is_empty() {
+                    fn to_raw(t: &T, h: &dyn Fn(&str) -> hash160::Hash, only: Option<&str>) -> T {
+                        let mut t2 = t.clone();
+                        fn rec(t: &mut T, h: &dyn Fn(&str) -> hash160::Hash, only: Option<&str>) {
+                            if let T::PkH(k) = t {
+                                if only.map(|o| o == k).unwrap_or(true) {
+                                    *t = T::RawPkH(h(k).to_string());
+                                }
+                                return;
+                            }
+                            for c in t.children_mut() {
+                                rec(c, h, only);
+                            }
+                        }
+                        rec(&mut t2, h, only);
+                        t2
+                    }
+                    let raw_all = to_raw(t, &hash_of, None);
+                    if let Ok(mr) = build::<String, Ctx>(&raw_all, &StrEnv) {
+                        let full: std::collections::BTreeMap<hash160::Hash, String> = pkh_keys.iter().map(|k| (hash_of(k), k.clone())).collect();
+                        let back = mr.substitute_raw_pkh(&full);
+                        if walk(&back) != *t {
+                            rep.violation(Violation {
+                                key: format!("C20|substitute-full|{}|{}", ctx, t.sexpr()),
+                                class: format!("substitute_raw_pkh-wrong-{}", t.tag()),
+                                what: format!("substituting every raw hash gives {} expected {}", walk(&back).sexpr(), t.sexpr()),
+                                case: json!({"ctx": ctx, "model": t.sexpr(), "raw": raw_all.sexpr()}),
+                            });
+                        } else {
+                            bump(&mut cen, "substitute_full_ok");
+                        }
+                        for k in &pkh_keys {
+                            let one: std::collections::BTreeMap<hash160::Hash, String> = [(hash_of(k), k.clone())].into_iter().collect();
+                            let got = walk(&mr.substitute_raw_pkh(&one));
+                            // expected: only k's occurrences resolved
+                            let others: Vec<&String> = pkh_keys.iter().filter(|x| *x != k).collect();
+                            let mut exp = t.clone();
+                            for o in others {
+                                exp = to_raw(&exp, &hash_of, Some(o));
+                            }
+                            if got != exp {
+                                rep.violation(Violation {
+                                    key: format!("C20|substitute-one|{}|{}|{}", ctx, t.sexpr(), k),
+                                    class: format!("substitute_raw_pkh-partial-wrong-{}", t.tag()),
+                                    what: format!("substituting only {} gives {} expected {}", k, got.sexpr(), exp.sexpr()),
+                                    case: json!({"ctx": ctx, "model": t.sexpr()}),
+                                });
+                            }
+                        }
+                    }
+                }
+            }
             let tsx = t.sexpr();
             let mut viol = |class: &str, what: String| {
                 rep.violation(Violation {
@@ -500,7 +582,7 @@ pub fn run(tier: Tier) -> i32 {
         ok,
         rep.get("miniscripts") + rep.get("descriptors") + rep.get("policies"),
         rep.get("failures_propagated").min(rep.get("concrete_scripts_ok")),
-        "every well-typed term up to the node bound (4 contexts) + descriptor family (all wrappings, tap trees) + policies x translators {identity, renaming, composition, failing on each label, String->concrete, context-illegal keys}: structure preserved with keys substituted, identity keeps type/ext, composition commutes, script equals reference encoding with mapped keys, failure iff the translator failed on an occurring key (TranslatorErr) or the mapped key is illegal (OuterError); iter_pk / for_each_key / for_any_key / Concrete::keys visit exactly the keys of the string form. non-trivial = min(failing translations propagated, concrete scripts compared)",
+        "every well-typed term up to the node bound (4 contexts) + descriptor family (all wrappings, tap trees) + policies x translators {identity, renaming, composition, failing on each label, String->concrete, context-illegal keys}: structure preserved with keys substituted, identity keeps type/ext, composition commutes, script equals reference encoding with mapped keys, failure iff the translator failed on an occurring key (TranslatorErr) or the mapped key is illegal (OuterError); iter_pk / for_each_key / for_any_key / Concrete::keys visit exactly the keys of the string form; clone() and substitute_raw_pkh (empty, full and single-key maps) rebuild exactly the expected structure; all of it also on two nested context levels around every fragment of up to three nodes. non-trivial = min(failing translations propagated, concrete scripts compared)",
         true,
     )
 }
